@@ -379,6 +379,12 @@ package impl
 //@   requires forall k int :: 0 <= k && k < len(args) ==> args[k] != nil
 //@   ensures len(input) == 0 && len(args) == 0 ==> err == nil && len(res) == 0
 //@   assigns nothing
+//@   loop 1:
+//@     invariant own(result) && (len(input) == 0 ==> len(result) == 0)
+//@   loop 3:
+//@     invariant own(result) && (len(input) == 0 ==> len(result) == 0)
+//@   loop 4:
+//@     invariant own(result) && (len(input) == 0 ==> len(result) == 0)
 //
 //@ func Descendants(ctx, input, args) (res, err)
 //@   requires ctx != nil && validColl(input)
